@@ -18,6 +18,7 @@ import (
 	"rscheck/driver"
 	"rscheck/pat"
 	"rscheck/rules/c07"
+	"rscheck/rules/c07/inl"
 )
 
 const (
@@ -50,6 +51,8 @@ type rx struct {
 	alias map[types.Object]bool   // further names of the entry (parameter of a one-level helper)
 	buf   types.Object            // per-entry buffer
 	litOf map[types.Object]*ast.CompositeLit
+	// buffers whose String() is the message of an entry (sent to the output channel or returned)
+	msgBufs map[types.Object]bool
 }
 
 func reentrant(c *core.Ctx) {
@@ -70,8 +73,19 @@ func reentrant(c *core.Ctx) {
 	c01.EntryRules(c)
 }
 
+// Specs names the anchored functions of C17 for the helper inliner.
+var Specs = []inl.Spec{
+	{Pkg: pkgRun, Roots: []string{"CmdDecode.decode", "CmdDecode.decoderMain"},
+		Keep:      []string{"Fprintf", "Marshal", "EncodeToString", "DecodeDump", "WriteString", "FlushWriter", "Flush", "NewRDBLoader", "decoderMain"},
+		KeepTypes: []string{"BinEntry"}},
+}
+
 func Run(c *core.Ctx) {
 	defer reentrant(c)
+	c07.Dual(c, append(append([]inl.Spec{}, Specs...), c07.Specs[2]), run)
+}
+
+func run(c *core.Ctx) {
 	dm := c.Func(pkgRun, "CmdDecode", "decoderMain")
 	dec := c.Func(pkgRun, "CmdDecode", "decode")
 	if dm != nil {
@@ -113,7 +127,7 @@ func (x *rx) setup() bool {
 		ipipe = x.info.Defs[ps[0].Names[0]]
 	}
 	core.Inspect(body, func(n ast.Node) bool {
-		if rs, ok := n.(*ast.RangeStmt); ok && ipipe != nil && core.ObjOf(x.info, rs.X) == ipipe {
+		if rs, ok := n.(*ast.RangeStmt); ok && ipipe != nil && c07.Obj(x.info, rs.X) == ipipe {
 			x.loop = rs
 		}
 		return true
@@ -122,12 +136,45 @@ func (x *rx) setup() bool {
 		x.c.Undecidedf("R3.one-message", "decoderMain", x.fn.Decl.Pos(), "no `for e := range <input channel parameter>` loop in decoderMain")
 		return false
 	}
-	x.entry = core.ObjOf(x.info, x.loop.Key)
+	x.entry = c07.Obj(x.info, x.loop.Key)
+	x.msgBufs = map[types.Object]bool{}
+	msgOf := func(e ast.Expr) {
+		if alts := x.through(e); len(alts) == 1 {
+			e = alts[0]
+		}
+		if b := pat.Expr("_b.String()").Match(x.info, e, nil); b != nil {
+			if o := c07.Obj(x.info, b["_b"].(ast.Expr)); x.isBuffer(o) {
+				x.msgBufs[o] = true
+			}
+		}
+	}
+	core.InspectAll(body, func(n ast.Node) bool {
+		switch st := n.(type) {
+		case *ast.SendStmt:
+			msgOf(st.Value)
+		case *ast.ReturnStmt:
+			if len(st.Results) == 1 {
+				msgOf(st.Results[0])
+			}
+		}
+		return true
+	})
+	// json.Marshal called in decoderMain itself (a marshalling helper expanded in place)
+	for _, call := range core.Calls(body, x.info, func(_ *ast.CallExpr, o types.Object) bool {
+		f, _ := o.(*types.Func)
+		return pkgFunc(f, "encoding/json", "Marshal") || f != nil && f.Name() == "Encode" && core.NamedTypePath(recvType(f)) == "encoding/json.Encoder"
+	}) {
+		if !x.errCk[body] {
+			x.errCk[body] = true
+			c07.ErrCheck(x.c, x.g, x.info, body, call, c07.ErrSpec{Rule: "R2.error", Key: "decoderMain/json.Marshal",
+				Consequence: "a marshalling failure must stop the run; otherwise an empty or partial line is printed for the element and the run reports success"})
+		}
+	}
 	core.Inspect(body, func(n ast.Node) bool {
 		if as, ok := n.(*ast.AssignStmt); ok && len(as.Lhs) == 1 && len(as.Rhs) == 1 {
 			if u, ok := ast.Unparen(as.Rhs[0]).(*ast.UnaryExpr); ok && u.Op == token.AND {
 				if cl, ok := ast.Unparen(u.X).(*ast.CompositeLit); ok {
-					x.litOf[core.ObjOf(x.info, as.Lhs[0])] = cl
+					x.litOf[c07.Obj(x.info, as.Lhs[0])] = cl
 				}
 			}
 		}
@@ -135,67 +182,6 @@ func (x *rx) setup() bool {
 	})
 	return true
 }
-
-func (x *rx) isStdB64(call *ast.CallExpr) bool {
-	f := core.CalleeFunc(x.info, call)
-	sel, ok := ast.Unparen(call.Fun).(*ast.SelectorExpr)
-	if !ok || !pkgFunc(f, "encoding/base64", "EncodeToString") || len(call.Args) != 1 {
-		return false
-	}
-	o := core.ObjOf(x.info, sel.X)
-	return o != nil && o.Pkg() != nil && o.Pkg().Path() == "encoding/base64" && o.Name() == "StdEncoding"
-}
-
-// encoded returns the argument of an application of the base64 encoder, or nil.
-func (x *rx) encoded(e ast.Expr) ast.Expr {
-	call, ok := ast.Unparen(e).(*ast.CallExpr)
-	if !ok || len(call.Args) != 1 {
-		return nil
-	}
-	if x.isStdB64(call) || x.kindOf(call.Fun) == "b64" {
-		return call.Args[0]
-	}
-	return nil
-}
-
-func (x *rx) otherB64(e ast.Expr) bool {
-	call, ok := ast.Unparen(e).(*ast.CallExpr)
-	if !ok {
-		return false
-	}
-	o := core.Callee(x.info, call)
-	return x.kindOf(call.Fun) == "b64other" || o != nil && o.Pkg() != nil && o.Pkg().Path() == "encoding/base64"
-}
-
-func (x *rx) entryField(e ast.Expr, name string) bool {
-	sel, ok := ast.Unparen(e).(*ast.SelectorExpr)
-	if !ok || !core.IsFieldNamed(x.info, sel, "BinEntry", name) {
-		return false
-	}
-	o := core.ObjOf(x.info, sel.X)
-	return o != nil && (o == x.entry || x.alias[o])
-}
-
-// emit: fmt.Fprintf(&buf, "%s\n", toJson(v)); returns the buffer object and v's object.
-func (x *rx) emit(n ast.Node) (buf, v types.Object, ok bool) {
-	for _, call := range cfgq.ExecCalls(n) {
-		if !pkgFunc(core.CalleeFunc(x.info, call), "fmt", "Fprintf") || len(call.Args) < 2 {
-			continue
-		}
-		if u, isU := ast.Unparen(call.Args[0]).(*ast.UnaryExpr); isU && u.Op == token.AND {
-			buf = core.ObjOf(x.info, u.X)
-		}
-		if len(call.Args) == 3 {
-			if jc, isC := ast.Unparen(call.Args[2]).(*ast.CallExpr); isC && len(jc.Args) == 1 && x.kindOf(jc.Fun) == "json" {
-				v = core.ObjOf(x.info, jc.Args[0])
-			}
-		}
-		return buf, v, true
-	}
-	return nil, nil, false
-}
-
-func (x *rx) isEmit(n ast.Node) bool { _, _, ok := x.emit(n); return ok }
 
 func jsonName(tag string) string {
 	name := reflect.StructTag(tag).Get("json")
@@ -240,7 +226,9 @@ var label = map[string]string{"String": "string", "List": "list", "Hash": "hash"
 
 // literal checks R1 and R2.fields for one marshalled struct literal. kind is the rdb type name of the enclosing
 // case ("" for the aux line), sv the case's switch variable, elem/idx the element and index of the enclosing range.
-func (x *rx) literal(cl *ast.CompositeLit, kind string, sv, elem, idx types.Object) {
+func noElem(ast.Expr) bool { return false }
+
+func (x *rx) literal(cl *ast.CompositeLit, kind string, sv types.Object, elemIs func(ast.Expr) bool, idx types.Object) {
 	vals, typs, ok := x.fields(cl)
 	name := "aux"
 	if kind != "" {
@@ -251,12 +239,12 @@ func (x *rx) literal(cl *ast.CompositeLit, kind string, sv, elem, idx types.Obje
 		return
 	}
 	isObj := func(o types.Object) func(ast.Expr) bool {
-		return func(e ast.Expr) bool { return o != nil && core.ObjOf(x.info, ast.Unparen(e)) == o }
+		return func(e ast.Expr) bool { return o != nil && c07.Obj(x.info, ast.Unparen(e)) == o }
 	}
 	elemField := func(typ, f string) func(ast.Expr) bool {
 		return func(e ast.Expr) bool {
 			sel, ok := ast.Unparen(e).(*ast.SelectorExpr)
-			return ok && elem != nil && core.IsFieldNamed(x.info, sel, typ, f) && core.ObjOf(x.info, sel.X) == elem
+			return ok && core.IsFieldNamed(x.info, sel, typ, f) && elemIs(sel.X)
 		}
 	}
 	entryF := func(f string) func(ast.Expr) bool { return func(e ast.Expr) bool { return x.entryField(e, f) } }
@@ -276,12 +264,12 @@ func (x *rx) literal(cl *ast.CompositeLit, kind string, sv, elem, idx types.Obje
 	case "String":
 		raw["value64"] = want{isObj(sv), "the decoded string"}
 	case "List":
-		raw["value64"] = want{isObj(elem), "this list element"}
+		raw["value64"] = want{elemIs, "this list element"}
 		plain["index"] = want{isObj(idx), "the range index of this element"}
 	case "Hash":
 		raw["field64"], raw["value64"] = want{elemField("HashElement", "Field"), "this element's Field"}, want{elemField("HashElement", "Value"), "this element's Value"}
 	case "Set":
-		raw["member64"] = want{isObj(elem), "this set member"}
+		raw["member64"] = want{elemIs, "this set member"}
 	case "ZSet":
 		raw["member64"] = want{elemField("ZSetElement", "Member"), "this element's Member"}
 		isScore := elemField("ZSetElement", "Score")
@@ -370,7 +358,7 @@ func (x *rx) literal(cl *ast.CompositeLit, kind string, sv, elem, idx types.Obje
 			guarded := false
 			core.Inspect(x.fn.Decl.Body, func(n ast.Node) bool {
 				if call, ok := n.(*ast.CallExpr); ok {
-					if f := core.CalleeFunc(x.info, call); (pkgFunc(f, "math", "IsInf") || pkgFunc(f, "math", "IsNaN")) && len(call.Args) > 0 && pat.Same(x.info, call.Args[0], val) {
+					if f := c07.CalleeF(x.info, call); (pkgFunc(f, "math", "IsInf") || pkgFunc(f, "math", "IsNaN")) && len(call.Args) > 0 && pat.Same(x.info, call.Args[0], val) {
 						guarded = true
 					}
 				}
@@ -401,7 +389,7 @@ func (x *rx) lines() {
 		if !c07.Within(cl, ts) && c07.Within(cl, body) {
 			if vals, _, ok := x.fields(cl); ok {
 				if s, _ := core.StringConst(x.info, vals["type"]); s == "aux" {
-					x.literal(cl, "", nil, nil, nil)
+					x.literal(cl, "", nil, noElem, nil)
 					done[cl] = true
 				}
 			}
@@ -430,38 +418,114 @@ func (x *rx) lines() {
 				after = b
 			}
 		}
-		var rs *ast.RangeStmt
-		nrs := 0
+		// the loops of the case: exactly one, visiting every element of the decoded object once
+		var loops, iters []ast.Stmt
+		var lbody *ast.BlockStmt
+		var elemVar, idx types.Object
 		for _, s := range cc.Body {
 			core.Inspect(s, func(n ast.Node) bool {
-				if r, ok := n.(*ast.RangeStmt); ok {
-					nrs++
-					if core.ObjOf(x.info, r.X) == sv {
-						rs = r
+				switch l := n.(type) {
+				case *ast.RangeStmt:
+					loops = append(loops, l)
+					if sv != nil && c07.Obj(x.info, l.X) == sv {
+						iters = append(iters, l)
+						lbody, elemVar, idx = l.Body, nil, nil
+						if l.Value != nil {
+							elemVar = c07.Obj(x.info, l.Value)
+						}
+						if l.Key != nil {
+							idx = c07.Obj(x.info, l.Key)
+						}
+					}
+				case *ast.ForStmt:
+					if c07.OnceLoop(l) {
+						return true
+					}
+					loops = append(loops, l)
+					// for i := 0; i < len(obj); i++ with i left alone in the body
+					if cnt, isC := c07.LoopCount(x.info, l).(*ast.CallExpr); isC && len(cnt.Args) == 1 && sv != nil && c07.Obj(x.info, cnt.Args[0]) == sv {
+						post, isInc := l.Post.(*ast.IncDecStmt)
+						if lb, isL := core.Callee(x.info, cnt).(*types.Builtin); isL && lb.Name() == "len" && isInc && post.Tok == token.INC {
+							i := c07.Obj(x.info, l.Init.(*ast.AssignStmt).Lhs[0])
+							touched := false
+							core.InspectAll(l.Body, func(m ast.Node) bool {
+								switch st := m.(type) {
+								case *ast.AssignStmt:
+									for _, lh := range st.Lhs {
+										touched = touched || c07.Obj(x.info, lh) == i
+									}
+								case *ast.IncDecStmt:
+									touched = touched || c07.Obj(x.info, st.X) == i
+								case *ast.UnaryExpr:
+									touched = touched || st.Op == token.AND && c07.Obj(x.info, st.X) == i
+								}
+								return true
+							})
+							if !touched {
+								iters = append(iters, l)
+								lbody, elemVar, idx = l.Body, nil, i
+							}
+						}
 					}
 				}
 				return true
 			})
 		}
 		name := label[kind]
-		var elem, idx types.Object
+		var rs ast.Stmt
+		elemIs := func(ast.Expr) bool { return false }
 		from, to := cfgq.Point{B: blk}, after
 		if kind == "String" {
-			if nrs != 0 {
+			if len(loops) != 0 {
 				x.c.Undecidedf("R2.one-line", name, cc.Pos(), "loop inside the string case")
 				continue
 			}
 		} else {
-			if rs == nil || nrs != 1 {
-				x.c.Failf("R2.one-line", name+"/range", cc.Pos(), "the %s case must iterate the decoded object with exactly one range loop (found %d loop(s), %v over the object): elements are omitted or repeated", name, nrs, rs != nil)
+			escapes := false // the object is handed to some function: the loop may be there
+			for _, s := range cc.Body {
+				core.InspectAll(s, func(n ast.Node) bool {
+					if call, isC := n.(*ast.CallExpr); isC {
+						for _, a := range call.Args {
+							if _, isB := core.Callee(x.info, call).(*types.Builtin); !isB && sv != nil && c07.Obj(x.info, a) == sv {
+								escapes = true
+							}
+						}
+					}
+					return true
+				})
+			}
+			withEmit := 0
+			for _, l := range iters {
+				if len(x.g.Points(func(n ast.Node) bool { return x.isEmit(n) && c07.Within(n, l) })) > 0 {
+					withEmit++
+				}
+			}
+			switch {
+			case len(iters) == 1 && len(loops) == 1:
+			case len(loops) == 0 && !escapes || withEmit >= 2:
+				x.c.Failf("R2.one-line", name+"/range", cc.Pos(), "the %s case must iterate the decoded object with exactly one loop (found %d loop(s), %d over the object): elements are omitted or repeated", name, len(loops), len(iters))
+				continue
+			default:
+				x.c.Undecidedf("R2.one-line", name+"/range", cc.Pos(), "the %s case has %d loop(s), %d of them recognised as one pass over the decoded object", name, len(loops), len(iters))
 				continue
 			}
+			rs = iters[0]
 			x.c.Okf("R2.one-line", name+"/range", rs.Pos(), "one range over the decoded %s", name)
-			if rs.Value != nil {
-				elem = core.ObjOf(x.info, rs.Value)
-			}
-			if rs.Key != nil {
-				idx = core.ObjOf(x.info, rs.Key)
+			ev, ix, lb := elemVar, idx, lbody
+			elemIs = func(e ast.Expr) bool {
+				if id, isID := ast.Unparen(e).(*ast.Ident); isID { // a local of the loop body bound once to obj[i]
+					if d := pat.DefOf(x.info, id); d != nil {
+						if _, isIx := ast.Unparen(d).(*ast.IndexExpr); isIx && !c07.Within(identPos(c07.Obj(x.info, id)), lb) {
+							return false
+						}
+					}
+				}
+				e = c07.Through(x.info, e)
+				if ev != nil && c07.Obj(x.info, e) == ev {
+					return true
+				}
+				ie, isIx := e.(*ast.IndexExpr)
+				return isIx && ix != nil && c07.Obj(x.info, ie.Index) == ix && c07.Obj(x.info, ie.X) == sv
 			}
 			head, b := c07.RangeBlocks(x.g, rs)
 			from, to = cfgq.Point{B: b}, head
@@ -475,21 +539,21 @@ func (x *rx) lines() {
 			fmt.Sprintf("every %s element must produce a JSON line: here a path through the %s ends without Fprintf into the entry buffer, the element is omitted from the output", name, map[bool]string{true: "case", false: "iteration"}[kind == "String"]))
 		var w []string
 		var lits []*ast.CompositeLit
+		unknownEmit := false
 		for _, p := range x.g.Points(func(n ast.Node) bool { return x.isEmit(n) && c07.Within(n, cc) }) {
 			if w == nil {
 				w = x.g.Path(cfgq.Query{From: p, After: true, Target: x.isEmit, AvoidEdge: toEnd})
 			}
-			buf, v, _ := x.emit(p.Node())
-			okFmt := false
-			for _, call := range cfgq.ExecCalls(p.Node()) {
-				if pkgFunc(core.CalleeFunc(x.info, call), "fmt", "Fprintf") && len(call.Args) == 3 {
-					s, _ := core.StringConst(x.info, call.Args[1])
-					okFmt = s == "%s\n"
-				}
+			buf, v, okFmt, _ := x.emit2(p.Node())
+			if !okFmt && buf != nil { // the newline is written separately: it must follow before the next line / the end of the message
+				pn := p.Node()
+				okFmt = x.g.Path(cfgq.Query{From: p, After: true, Avoid: func(n ast.Node) bool { return x.newlineInto(n, buf) },
+					Target: func(n ast.Node) bool { _, isSend := n.(*ast.SendStmt); return n != pn && (x.isEmit(n) || isSend) }, TargetExit: c07.NormalExit}) == nil
 			}
 			cl := x.litOf[v]
-			okLit := cl != nil && c07.Within(cl, cc) && (rs == nil || c07.Within(cl, rs.Body))
+			okLit := cl != nil && c07.Within(cl, cc) && (rs == nil || c07.Within(cl, lbody))
 			if v == nil || cl == nil {
+				unknownEmit = true
 				// the marshalling helper or the value it is given is not in a recognised form: not judged
 				x.c.Undecidedf("R2.fields", name+"/emit", p.Node().Pos(), "cannot identify the struct literal marshalled by `%s`", x.c.Src(p.Node()))
 				continue
@@ -500,11 +564,16 @@ func (x *rx) lines() {
 				lits = append(lits, cl)
 			}
 		}
-		x.c.Check("R2.one-line", name+"/at-most-one", cc.Pos(), w == nil, fmt.Sprintf("a %s element produces two JSON lines: the element is duplicated in the output", name), w...)
+		if w != nil && unknownEmit {
+			x.c.Undecidedf("R2.one-line", name+"/at-most-one", cc.Pos(), "several writes into the entry buffer, not all of them recognised as a JSON line")
+			w = nil
+		} else {
+			x.c.Check("R2.one-line", name+"/at-most-one", cc.Pos(), w == nil, fmt.Sprintf("a %s element produces two JSON lines: the element is duplicated in the output", name), w...)
+		}
 		for _, cl := range lits {
 			if !done[cl] {
 				done[cl] = true
-				x.literal(cl, kind, sv, elem, idx)
+				x.literal(cl, kind, sv, elemIs, idx)
 			}
 		}
 	}
@@ -545,7 +614,7 @@ func (x *rx) messages() {
 	}
 	isSend := func(n ast.Node) bool {
 		s, ok := n.(*ast.SendStmt)
-		return ok && opipe != nil && core.ObjOf(x.info, s.Chan) == opipe
+		return ok && opipe != nil && c07.Obj(x.info, s.Chan) == opipe
 	}
 	head, body := c07.RangeBlocks(x.g, x.loop)
 	x.c.Check("R3.one-message", "decoderMain/at-least-one", x.loop.Pos(), !c07.ReachBlock(x.g, cfgq.Point{B: body}, false, isSend, head),
@@ -558,14 +627,24 @@ func (x *rx) messages() {
 			w = x.g.Path(cfgq.Query{From: p, After: true, Target: isSend, AvoidEdge: func(b *cfg.Block, s int) bool { return b.Succs[s] == head }})
 		}
 		val := p.Node().(*ast.SendStmt).Value
-		if alts := x.through(val); len(alts) == 1 { // `line := <expr>; opipe <- line`
-			val = alts[0]
-		}
-		if b := pat.Expr("_b.String()").Match(x.info, val, nil); b != nil {
-			if o := core.ObjOf(x.info, b["_b"].(ast.Expr)); o != nil {
-				bufs[o] = true
-				continue
+		// `line := <expr>; opipe <- line`: every value the local may hold is the String() of a buffer
+		alts, okAll := x.through(val), true
+		for _, alt := range alts {
+			o := types.Object(nil)
+			if b := pat.Expr("_b.String()").Match(x.info, alt, nil); b != nil {
+				o = c07.Obj(x.info, b["_b"].(ast.Expr))
 			}
+			if o == nil {
+				okAll = false
+			} else {
+				bufs[o] = true
+			}
+		}
+		if okAll {
+			continue
+		}
+		if len(alts) == 1 {
+			val = alts[0]
 		}
 		if call, ok := ast.Unparen(val).(*ast.CallExpr); ok && x.lineHelper(call) {
 			continue
